@@ -345,6 +345,9 @@ func TestVerifC08Stress(t *testing.T) {
 		}
 		tryPct := []int{20, 40, 70, 100}[master.Intn(4)]
 		light := w%2 == 1
+		if light && master.Intn(3) != 0 {
+			nth = 16
+		}
 		var lock Spinlock
 		var counter int // protected by lock only
 		var seq int64
@@ -372,7 +375,7 @@ func TestVerifC08Stress(t *testing.T) {
 					// nothing staggers the threads in front of the atomic operation under test; failed
 					// try-acquires are not recorded, the call/relret events are written next to the
 					// ok/rel events (a call may always be reported early; nothing depends on relret)
-					for i, att := 0, 0; i < nops && att < 200*nops; att++ {
+					for i, att := 0, 0; i < 2*nops && att < 400*nops; att++ {
 						isTry := rng.Intn(100) < tryPct
 						if isTry {
 							if !lock.TryToAcquire() {
